@@ -17,6 +17,8 @@ inductive Eff
   | atFork                       -- `os.register_at_fork(...)`
   | lockAcquire | lockRelease    -- the run lock (`fasteners.InterProcessLock` on the job lock file)
   | lockFileIO                   -- open/read/write of the lock file through another descriptor (drops a POSIX record lock)
+  | unlinkLock                   -- the lock *name* is removed / renamed: it no longer points to the inode that holders and queued
+                                 -- processes have open; the next open creates a fresh inode (Model/RunnerLockIds.lean)
   | testDone | touchDone | rmDone
   | rmFailed | writeFailed (code : Nat)
   | markStarted | body
@@ -127,7 +129,7 @@ def traceActs (cfg : Cfg) (s : St) : List Act → List Eff
     descriptor gives the record lock back, as does the explicit release and the end of the process -/
 def heldNext (h : Bool) : Eff → Bool
   | .lockAcquire => true
-  | .lockRelease | .lockFileIO | .exitProcess => false
+  | .lockRelease | .lockFileIO | .unlinkLock | .exitProcess => false
   | _ => h
 
 def heldAfter (h : Bool) : List Eff → Bool
@@ -143,7 +145,7 @@ def underLock (crit : Eff → Bool) : Bool → List Eff → Bool
 def heldThroughout (a b : Eff) (l : List Eff) : Bool :=
   let tail := l.dropWhile (· != a)
   let seg := (tail.reverse.dropWhile (· != b)).reverse
-  !seg.isEmpty && seg.all (fun e => e != .lockRelease && e != .lockFileIO && e != .exitProcess)
+  !seg.isEmpty && seg.all (fun e => e != .lockRelease && e != .lockFileIO && e != .unlinkLock && e != .exitProcess)
 
 /-- every `b` is preceded by some `a` -/
 def precededBy (a b : Eff → Bool) : Bool → List Eff → Bool
